@@ -573,7 +573,12 @@ fn val_text(v: &Val) -> String {
 }
 
 fn flatten_logic(func: &str, args: Vec<N>) -> N {
-    if func == "_||_" || func == "_&&_" {
+    flatten_logic_opt(func, args, true)
+}
+
+/// `chains == false`: logical chains keep the exact binary shape; only `-literal` is folded
+fn flatten_logic_opt(func: &str, args: Vec<N>, chains: bool) -> N {
+    if chains && (func == "_||_" || func == "_&&_") {
         let mut flat = vec![];
         for a in args {
             match a {
@@ -602,9 +607,17 @@ impl N {
     pub fn from_parsed(e: &IdedExpr) -> N {
         N::from_parsed_opt(e, true)
     }
+    /// The parsed tree with its exact binary shape (ids dropped, `-literal` folded): what a fully
+    /// parenthesised source must produce.
+    pub fn from_parsed_exact(e: &IdedExpr) -> N {
+        N::from_parsed_mode(e, true, false)
+    }
     /// `flatten == false`: the tree exactly as built by the parser (ids dropped only).
     pub fn from_parsed_opt(e: &IdedExpr, flatten: bool) -> N {
-        let rec = |x: &IdedExpr| N::from_parsed_opt(x, flatten);
+        N::from_parsed_mode(e, flatten, true)
+    }
+    fn from_parsed_mode(e: &IdedExpr, flatten: bool, chains: bool) -> N {
+        let rec = |x: &IdedExpr| N::from_parsed_mode(x, flatten, chains);
         match &e.expr {
             Expr::Unspecified => N::Unspecified,
             Expr::Ident(n) => N::Ident(n.clone()),
@@ -612,7 +625,7 @@ impl N {
             Expr::Call(c) => {
                 let args: Vec<N> = c.args.iter().map(|x| rec(x)).collect();
                 match &c.target {
-                    None if flatten => flatten_logic(&c.func_name, args),
+                    None if flatten => flatten_logic_opt(&c.func_name, args, chains),
                     None => N::Call(c.func_name.clone(), None, args),
                     Some(t) => N::Call(c.func_name.clone(), Some(Box::new(rec(t))), args),
                 }
@@ -652,21 +665,30 @@ impl N {
 
     /// Expected normal form built directly from the generator tree.
     pub fn from_g(g: &G) -> N {
+        N::from_g_opt(g, true)
+    }
+    /// The generator tree with its exact binary shape.
+    pub fn from_g_exact(g: &G) -> N {
+        N::from_g_opt(g, false)
+    }
+    fn from_g_opt(g: &G, chains: bool) -> N {
+        let from_g = |x: &G| N::from_g_opt(x, chains);
+        let flatten_logic = |f: &str, a: Vec<N>| flatten_logic_opt(f, a, chains);
         match g {
             G::Ident(n) => N::Ident(n.clone()),
             G::Int(i) => N::Lit(format!("int:{}", i)),
             G::Lit(_, norm) => N::Lit(norm.clone()),
-            G::Cond(c, t, e) => N::Call("_?_:_".into(), None, vec![N::from_g(c), N::from_g(t), N::from_g(e)]),
-            G::Bin(op, l, r) => flatten_logic(op_function(op), vec![N::from_g(l), N::from_g(r)]),
-            G::Not(x) => N::Call("!_".into(), None, vec![N::from_g(x)]),
-            G::Neg(x) => flatten_logic("-_", vec![N::from_g(x)]),
-            G::Select(x, f) => N::Select(Box::new(N::from_g(x)), f.clone(), false),
-            G::Index(x, i) => N::Call("_[_]".into(), None, vec![N::from_g(x), N::from_g(i)]),
-            G::Method(x, m, args) => N::Call(m.clone(), Some(Box::new(N::from_g(x))), args.iter().map(N::from_g).collect()),
-            G::Call(f, args) => N::Call(f.clone(), None, args.iter().map(N::from_g).collect()),
-            G::List(es) => N::List(es.iter().map(N::from_g).collect()),
-            G::Map(es) => N::Map(es.iter().map(|(k, v)| (N::from_g(k), N::from_g(v))).collect()),
-            G::Struct(n, fs) => N::Struct(n.clone(), fs.iter().map(|(f, v)| (f.clone(), N::from_g(v))).collect()),
+            G::Cond(c, t, e) => N::Call("_?_:_".into(), None, vec![from_g(c), from_g(t), from_g(e)]),
+            G::Bin(op, l, r) => flatten_logic(op_function(op), vec![from_g(l), from_g(r)]),
+            G::Not(x) => N::Call("!_".into(), None, vec![from_g(x)]),
+            G::Neg(x) => flatten_logic("-_", vec![from_g(x)]),
+            G::Select(x, f) => N::Select(Box::new(from_g(x)), f.clone(), false),
+            G::Index(x, i) => N::Call("_[_]".into(), None, vec![from_g(x), from_g(i)]),
+            G::Method(x, m, args) => N::Call(m.clone(), Some(Box::new(from_g(x))), args.iter().map(|x| from_g(x)).collect()),
+            G::Call(f, args) => N::Call(f.clone(), None, args.iter().map(|x| from_g(x)).collect()),
+            G::List(es) => N::List(es.iter().map(|x| from_g(x)).collect()),
+            G::Map(es) => N::Map(es.iter().map(|(k, v)| (from_g(k), from_g(v))).collect()),
+            G::Struct(n, fs) => N::Struct(n.clone(), fs.iter().map(|(f, v)| (f.clone(), from_g(v))).collect()),
         }
     }
 
